@@ -2,6 +2,7 @@ package core
 
 import (
 	"context"
+	"errors"
 	"fmt"
 	"regexp"
 	"runtime"
@@ -37,7 +38,12 @@ const arraiPkg = "github.com/arr-ai/arrai/"
 // NewPanicInfo captures the panic value and the innermost frame inside arrai from the
 // current goroutine's stack (must be called from the deferred function that recovered).
 func NewPanicInfo(r interface{}) *PanicInfo {
-	msg := fmt.Sprintf("%v", r)
+	var msg string
+	if err, ok := r.(error); ok {
+		msg = ErrText(err) // never call Error() on a parser.ParseError (see ErrText)
+	} else {
+		msg = fmt.Sprintf("%v", r)
+	}
 	if len(msg) > 300 {
 		msg = msg[:300]
 	}
@@ -144,13 +150,22 @@ func ErrText(err error) string {
 	if err == nil {
 		return ""
 	}
-	switch err.(type) {
-	case parser.ParseError, *parser.ParseError:
-		return "parser.ParseError"
-	}
-	s := fmt.Sprintf("%T", err)
-	if strings.Contains(s, "ParseError") {
-		return s
+	// a ParseError may be wrapped (ContextErr, localImportError, %w): walk the chain
+	for e, depth := err, 0; e != nil && depth < 20; e, depth = errors.Unwrap(e), depth+1 {
+		switch e.(type) {
+		case parser.ParseError, *parser.ParseError:
+			return "parser.ParseError"
+		}
+		if s := fmt.Sprintf("%T", e); strings.Contains(s, "ParseError") {
+			return s
+		}
+		if c, ok := e.(interface{ Cause() error }); ok && errors.Unwrap(e) == nil {
+			if inner := c.Cause(); inner != nil && inner != e {
+				if t := fmt.Sprintf("%T", inner); strings.Contains(t, "ParseError") {
+					return t
+				}
+			}
+		}
 	}
 	msg := func() (m string) {
 		defer func() {
